@@ -31,9 +31,9 @@ Section C06.
       cbn [pass_named]. destruct (p_ann p) as [a|] eqn:Ea; [|exact I].
       assert (Hrest : exists p0, In p0 ps /\ p_ann p0 = None).
       { destruct Hin as [->|Hin]; [congruence | eauto]. }
-      destruct (kw_get (p_name p) (c_kwargs c)); [apply bind_never; intros; now apply IH|].
-      destruct (p_default p); [apply bind_never; intros; now apply IH|].
-      destruct (_ && _); [apply bind_never; intros; now apply IH | exact I].
+      destruct (if takes_keyword p then kw_get (p_name p) (c_kwargs c) else None); [apply bind_never; intros; now apply IH|].
+      destruct (_ && _); [apply bind_never; intros; now apply IH|].
+      destruct (p_default p); [apply bind_never; intros; now apply IH | exact I].
     Qed.
 
     Definition missing_named : Prop :=
@@ -81,13 +81,13 @@ Section C06.
     cbn [pass_named]. destruct (p_ann p) as [a0|] eqn:Ea; [|exact I].
     destruct Hin as [->|Hin].
     - rewrite Hq in Ea. inversion Ea; subst a0.
-      destruct (kw_get (p_name q) (c_kwargs c)); [apply bind_chk_never; exact Ha|].
-      destruct (p_default q); [apply bind_chk_never; exact Ha|].
-      destruct (_ && _); [apply bind_chk_never; exact Ha | exact I].
+      destruct (if takes_keyword q then kw_get (p_name q) (c_kwargs c) else None); [apply bind_chk_never; exact Ha|].
+      destruct (_ && _); [apply bind_chk_never; exact Ha|].
+      destruct (p_default q); [apply bind_chk_never; exact Ha | exact I].
     - assert (Hrest : exists p0 a1, In p0 ps /\ p_ann p0 = Some a1 /\ always_rejects a1) by eauto.
-      destruct (kw_get (p_name p) (c_kwargs c)); [apply bind_never; intros; now apply IH|].
-      destruct (p_default p); [apply bind_never; intros; now apply IH|].
-      destruct (_ && _); [apply bind_never; intros; now apply IH | exact I].
+      destruct (if takes_keyword p then kw_get (p_name p) (c_kwargs c) else None); [apply bind_never; intros; now apply IH|].
+      destruct (_ && _); [apply bind_never; intros; now apply IH|].
+      destruct (p_default p); [apply bind_never; intros; now apply IH | exact I].
   Qed.
 
   (* a named parameter whose annotation is rejected for every value: the call raises, the body never runs *)
